@@ -1427,6 +1427,41 @@ def with_malformed(run, kinds):
             if accepted:
                 fs.append(Failure("counterexample", "malformed-dag-accepted(%s)" % kind, dict(kind=kind, how=how),
                                   dict(kind=kind, dependency_through=how), slice_="G"))
+        # random descriptions, valid or not: the real constructor and the model's build rule (VM.validateB) must agree,
+        # and a description that breaks the rule of THIS property must be refused
+        rngd = random.Random("%s/desc/%d" % (pid, seed))
+        nd = 150 if tier == "quick" else 2500
+        blocks_, metas_ = [], []
+        dstats = dict(descriptions=0, refused=0, debug_rule_broken=0, setup_rule_broken=0)
+        for k in range(nd):
+            scd = G.gen_description(random.Random(rngd.randrange(1 << 62)))
+            real = G.build_description(scd)
+            db, sb = G.description_rules(scd)
+            dstats["descriptions"] += 1
+            dstats["refused"] += real == "REFUSE"
+            dstats["debug_rule_broken"] += db
+            dstats["setup_rule_broken"] += sb
+            mine = db if pid == "C13" else sb
+            if real == "ACCEPT" and mine:
+                fs.append(Failure("counterexample", "malformed-dag-accepted(%s)" % ("normal-on-debug" if pid == "C13" else "setup-on-non-setup"),
+                                  scd, dict(debug_rule_broken=db, setup_rule_broken=sb), slice_="G"))
+            elif real.startswith("EXC"):
+                fs.append(Failure("correspondence", "G-description-raised:" + real, scd, dict(), slice_="G"))
+            blocks_.append(G.description_block("d%d" % k, scd))
+            metas_.append(("d%d" % k, scd, real, db or sb))
+        outd = common.run_driver("Graph", "".join(blocks_))
+        ansd = {l.split()[0]: l.split()[1:] for l in outd}
+        for qid, scd, real, broken in metas_:
+            a = ansd.get(qid)
+            if a is None or a[0] != "VALID":
+                raise common.HarnessError("graph driver did not answer the valid query of %s" % qid)
+            if (a[1] == "REFUSE") != broken:
+                raise common.HarnessError("VM.validateB disagrees with the harness's reading of the rules on %r" % (scd,))
+            if real in ("ACCEPT", "REFUSE") and real != a[1] and not (real == "ACCEPT" and broken):
+                fs.append(Failure("correspondence", "G-build-rule(model %s, constructor %s)" % (a[1], real), scd,
+                                  dict(model=a[1], real=real), slice_="G"))
+        cov["random_descriptions"] = dstats
+        n += dstats["descriptions"]
         cov["malformed_builds_rejected"] = n
         cov["evaluations"] += n
         cov["rule"] += "; plus %d malformed descriptions (%s through positional / keyword / flag / indexed / operator / second argument) that must be rejected at build time" % (n, ", ".join(kinds))
@@ -1434,10 +1469,12 @@ def with_malformed(run, kinds):
     return wrapped
 
 
-reg("C13", ["Props.C13_pulled_debug_has_inputs", "Props.C13_flag_off_no_debug", "Props.C13_debug_nodes_never_influence", "Props.C12_selection_is_closure"],
+reg("C13", ["Props.C13_pulled_debug_has_inputs", "Props.C13_flag_off_no_debug", "Props.C13_debug_nodes_never_influence", "Props.C12_selection_is_closure",
+            "Props.C13_C11_build_rule", "Props.C13_accepted_table_debug_never_influences"],
     with_malformed(run_G, ["normal-on-debug"]), ASSUME_G)
 reg("C11", ["Props.C11_setup_at_most_once", "Props.C11_first_value_kept", "VM.not_entered_of_res", "Props.C11_runs_only_what_selection_needs", "Props.C11_later_executions_see_first_value",
-            "Props.C11_kept_executors", "Props.C11_kept_executor_sees_current_setup", "Props.C11_setup_value_independent_of_arguments"], with_malformed(run_H, ["setup-on-normal", "setup-on-arg"]), ASSUME_H)
+            "Props.C11_kept_executors", "Props.C11_kept_executor_sees_current_setup", "Props.C11_setup_value_independent_of_arguments",
+            "Props.C13_C11_build_rule", "Props.C15_accepted_table_call_after_history_is_fresh"], with_malformed(run_H, ["setup-on-normal", "setup-on-arg"]), ASSUME_H)
 def run_H_and_composeprobe(pid, tier, seed):
     cov, fs, _ = run_H(pid, tier, seed)
     covc, fsc, _ = run_C(pid, tier, seed)
